@@ -92,6 +92,12 @@ def _gen_value_type(rng, depth=0):
                            ["HK", "k"], ["HK", "k", "j"], ["HK", "a"]])
     if depth >= 1:
         return _gen_literal(rng)
+    if rng.random() < 0.3:
+        # two levels of combination with no value-dependent type as a *direct* member of the outer one
+        sw = rng.choice([["SW", "a"], ["Rx", "^a"], ["EW", "b"], ["EW", "a"]])
+        ew = rng.choice([["EW", "c"], ["SW", "ab"], ["Rx", "b$"], ["HK", "k"]])
+        return rng.choice([["U", ["I", sw, ew], "NoneType"], ["I", "str", ["U", sw, ew]], ["U", ["I", sw, "MyStr"], "int"],
+                           ["U", ["U", _gen_literal(rng), "tuple"], "NoneType"]])
     a, b = _gen_value_type(rng, 1), _gen_value_type(rng, 1)
     if T.tname(a) == T.tname(b):
         return a
